@@ -40,8 +40,10 @@ def run(ctx):
                 "histories of 30 (thorough 45) requests against the real web server starting from two empty directories; the generator "
                 "aims names at present / absent entries of the last listing, walks existing read-write directories, appends missing names "
                 "(intermediate creation) or a file (blocking) and stays away from the input classes run as PROBES (one short history per "
-                "class on which the code is known to deviate from webapi.rst).  A history is non-trivial if it has an intermediate "
-                "directory created by a request, a 409, a mutable file overwritten in place and a successful relink between two directories.")
+                "class on which the code is known to deviate from webapi.rst); three of four histories open with one of three scripted "
+                "sequences (replace= on every kind of slot; metadata through set_children / rename / relink; mutable files in place, 410, "
+                "DELETE twice).  A history is non-trivial if it has an intermediate directory created by a request, a 409, and a mutable "
+                "file overwritten in place or a successful relink into another directory.")
     ctx.assumptions += ["TLC and the CommunityModules",
                         "the driver's fixed tables between Spec vocabulary and HTTP (harness/webops_driver.py: names, metadata values, "
                         "three file contents; caps -> identities by storage index, immutable files by reading them back)",
@@ -56,8 +58,11 @@ def run(ctx):
         c2 = {"RawNames": '{"a", "e2"}', "SlotKinds": '{"absent", "file", "dir"}', "StartDirs": '{"d1"}', "MaxOps": 2, "Small": "TRUE"}
         ctx.constants["MC_WebOps_depth2"] = c2
         ctx.mc("frontends/MCWebOps", cfg_of(c2), name="MC WebOps (sequences of 2 requests)", timeout=6000, coverage=False)
+        c3 = {"RawNames": '{"a", "e2"}', "SlotKinds": '{"absent", "dir"}', "StartDirs": '{"d1"}', "MaxOps": 3, "Small": "TRUE"}
+        ctx.constants["MC_WebOps_depth3"] = c3
+        ctx.mc("frontends/MCWebOps", cfg_of(c3), name="MC WebOps (sequences of 3 requests)", timeout=6000, coverage=False)
 
-    traces = ctx.impl("harness/webops_driver.py", ["--n", 14 if q else 400, "--len", 36 if q else 50, "--jobs", 4], timeout=6000)
+    traces = ctx.impl("harness/webops_driver.py", ["--n", 20 if q else 400, "--len", 36 if q else 50, "--jobs", 4], timeout=6000)
     reqs = 0
     for tr in traces:
         evs = tr["events"]
@@ -71,7 +76,7 @@ def run(ctx):
         inplace = any(e["q"]["op"] in ("put_file", "upload", "upload_at") and e["code"] == 200 and e["out"]["w"] and i > 0 and
                       e["out"]["id"] in evs[i - 1]["mf"] for i, e in enumerate(evs))
         moved = any(e["q"]["op"] == "relink" and e["code"] == 200 and e["q"]["to_d"] for e in evs)
-        ctx.count(json.dumps([slim(e) for e in evs], sort_keys=True) if (made and conflict and inplace and moved) else None)
+        ctx.count(json.dumps([slim(e) for e in evs], sort_keys=True) if (made and conflict and (inplace or moved)) else None)
         ctx.count(None, n=len(evs) - 1)
     ctx.sample({"src": traces[0]["src"], "events": [slim(e) for e in traces[0]["events"][5:11]]})
     ctx.notes.append("%d histories + %d probes, %d judged requests, %d HTTP requests in all (observation included)" % (
